@@ -77,6 +77,7 @@ type Config struct {
 
 	Routes []Route           `json:"routes,omitempty"`
 	YAML   string            `json:"yaml,omitempty"` // when set, used verbatim instead of Routes
+	Doc    *DocSpec          `json:"doc,omitempty"`  // C14: the document's abstract syntax (rendered to YAML at boot)
 	Env    map[string]string `json:"env,omitempty"`  // SSO_CONFIG_* (lower-case key without prefix)
 
 	ProxySecretSeed byte `json:"proxy_secret_seed"`
@@ -245,6 +246,28 @@ func New(cfg Config, dir string) *World {
 		}
 	}
 	addBackends(cfg.Routes)
+	if cfg.Doc != nil {
+		var walkDoc func(b *DocBlock)
+		walkDoc = func(b *DocBlock) {
+			if b == nil {
+				return
+			}
+			for _, h := range b.Backend {
+				if !seen[h] {
+					seen[h] = true
+					w.serve(h, w.Up.Handler(h), 0, 0)
+				}
+			}
+			for _, e := range b.Extra {
+				walkDoc(e)
+			}
+		}
+		for _, s := range cfg.Doc.Services {
+			for _, name := range sortedKeys(s.Blocks) {
+				walkDoc(s.Blocks[name])
+			}
+		}
+	}
 
 	w.L2 = &RecordingTransport{w: w, link: L2, inner: w.transport("proxy")}
 	w.L3 = &RecordingTransport{w: w, link: L3, inner: w.transport("auth")}
@@ -295,6 +318,9 @@ func (w *World) ServerErrors() string { return w.ServerErr.String() }
 
 // YAMLDoc renders the upstream configuration document.
 func (c Config) YAMLDoc() string {
+	if c.Doc != nil {
+		return c.Doc.Render()
+	}
 	if c.YAML != "" {
 		return c.YAML
 	}
@@ -389,6 +415,11 @@ func (c Config) env() map[string]string {
 		}
 	}
 	walk(c.Routes)
+	if c.Doc != nil {
+		for k, v := range c.Doc.Vars {
+			env[k] = v
+		}
+	}
 	return env
 }
 
@@ -396,7 +427,15 @@ func (c Config) env() map[string]string {
 func (w *World) BootProxy() error {
 	cfg := w.Cfg
 	file := filepath.Join(w.dir, "upstream_configs.yml")
-	if err := os.WriteFile(file, []byte(cfg.YAMLDoc()), 0o644); err != nil {
+	doc := []byte(cfg.YAMLDoc())
+	if cfg.Doc != nil && cfg.Doc.Truncate > 0 && cfg.Doc.Truncate < len(doc) {
+		doc = doc[:cfg.Doc.Truncate] // torn write: only a prefix of the document reached the disk
+		w.Fire("boot.truncated-config")
+	}
+	if cfg.Doc != nil && cfg.Doc.Missing {
+		os.Remove(file)
+		w.Fire("boot.missing-config")
+	} else if err := os.WriteFile(file, doc, 0o644); err != nil {
 		return err
 	}
 	// environment: only SSO_CONFIG_* is read by the loader
